@@ -4,6 +4,7 @@ package main
 // (globals, key-builder calls, string constants) their key / store arguments depend on.
 
 import (
+	"go/token"
 	"go/types"
 	"sort"
 	"strings"
@@ -130,4 +131,83 @@ func (w *World) mutsIn(fl *Flow, f *ssa.Function) []Mut {
 		}
 	}
 	return out
+}
+
+// coinLeaves strips the container constructors around a coins argument (sdk.NewCoins(x...),
+// sdk.Coins{x}, the variadic backing array) and returns the element values as written in the
+// source. A leaf that is the result of arithmetic (x.Add(y), NewCoin(d, a.Mul(b))) is returned
+// as that call, so that callers can demand "exactly this value" rather than "derived from".
+func coinLeaves(v ssa.Value) []ssa.Value {
+	var out []ssa.Value
+	seen := map[ssa.Value]bool{}
+	var walk func(v ssa.Value, d int)
+	walk = func(v ssa.Value, d int) {
+		v = canon(v)
+		if seen[v] || d > 8 {
+			return
+		}
+		seen[v] = true
+		switch x := v.(type) {
+		case *ssa.Call:
+			if cal, ok := CalleeOf(x.Common()); ok && strings.HasSuffix(cal.Pkg, "cosmos-sdk/types") && cal.Name == "NewCoins" {
+				for _, a := range x.Call.Args {
+					walk(a, d+1)
+				}
+				return
+			}
+		case *ssa.Slice:
+			walk(x.X, d+1)
+			return
+		case *ssa.Alloc:
+			// backing array of a variadic call or composite literal: collect the element stores
+			n := 0
+			for _, r := range *x.Referrers() {
+				ia, ok := r.(*ssa.IndexAddr)
+				if !ok {
+					continue
+				}
+				for _, r2 := range *ia.Referrers() {
+					if st, ok := r2.(*ssa.Store); ok && st.Addr == ssa.Value(ia) {
+						walk(st.Val, d+1)
+						n++
+					}
+				}
+			}
+			if n > 0 {
+				return
+			}
+		case *ssa.MakeInterface:
+			walk(x.X, d+1)
+			return
+		case *ssa.ChangeType:
+			walk(x.X, d+1)
+			return
+		case *ssa.Convert:
+			walk(x.X, d+1)
+			return
+		}
+		out = append(out, v)
+	}
+	walk(v, 0)
+	return out
+}
+
+// isParamNamed: v is the named parameter itself (possibly through its spill slot).
+func isParamNamed(v ssa.Value, name string) bool {
+	v = canon(v)
+	if p, ok := v.(*ssa.Parameter); ok {
+		return p.Name() == name
+	}
+	if u, ok := v.(*ssa.UnOp); ok && u.Op == token.MUL {
+		if al, ok := u.X.(*ssa.Alloc); ok {
+			for _, r := range *al.Referrers() {
+				if st, ok := r.(*ssa.Store); ok && st.Addr == ssa.Value(al) {
+					if p, ok := st.Val.(*ssa.Parameter); ok && p.Name() == name {
+						return true
+					}
+				}
+			}
+		}
+	}
+	return false
 }
